@@ -122,7 +122,15 @@ def gen_mesh(rng, cid, misaligned=False, malformed=False, only_type=None):
             vids = list(ids)
             while vids == ids and n > 1:
                 rng.shuffle(vids)
+        attr_name, attr_how = None, None
+        if rng.random() < 0.25:
+            # the FEMAttribute's own .name differs from the key it is stored under (documented
+            # option of set_attribute_data; also nodal_data[key] = FEMAttribute(other, ...));
+            # sometimes it collides with the key of another variable
+            attr_name = rng.choice(['other_' + name] + [x for x in names[:4] if x != name])
+            attr_how = 'set_attribute_data' if (vids == ids and rng.random() < 0.5) else 'setitem'
         variables.append({'name': name, 'ids': vids, 'shape': list(shape), 'dtype': vdt,
+                          'attr_name': attr_name, 'attr_how': attr_how,
                           'flat': [pair(Fr(rng.randint(-999, 999), 1 if vdt.startswith('int')
                                            else rng.choice([1, 2, 4])))
                                    for _ in range(size)]})
@@ -140,7 +148,7 @@ def gen_mesh(rng, cid, misaligned=False, malformed=False, only_type=None):
                                'flat': [pair(Fr(rng.randint(-999, 999), rng.choice([1, 2, 4])))
                                         for _ in v['flat']]})
     then = None
-    if not malformed and rng.random() < 0.3:
+    if not malformed and rng.random() < 0.4:
         then = {}
         if rng.random() < 0.7:
             then['points'] = [[pair(Fr(rng.randint(-64, 64), 4)) for _ in range(3)] for _ in range(n)]
@@ -156,6 +164,15 @@ def gen_mesh(rng, cid, misaligned=False, malformed=False, only_type=None):
                for v in variables if rng.random() < 0.5]
         if ow2:
             then['overwrites'] = ow2
+        if rng.random() < 0.4:
+            # the node table itself changes between the two exports, the elements do not.
+            # (in-place edits are kept out of these histories: remove_useless_nodes rebuilds the
+            # variables through .loc, whose staleness after attr.data[...] = v is not C06's subject)
+            then['nodes'] = 'remove_useless'
+            if 'points' in then:
+                then['points_how'] = 'setter'
+            for ow in then.get('overwrites', []):
+                ow['how'] = 'overwrite'
         if not then:
             then = None
     return {'id': cid, 'node_ids': ids, 'points': [[pair(x) for x in p] for p in pts],
@@ -252,6 +269,12 @@ def oracle(c, r):
                             for b in c['blocks']]
         if th.get('overwrites'):
             c2['overwrites'] = list(c.get('overwrites', [])) + th['overwrites']
+        if th.get('nodes') == 'remove_useless':
+            used = sorted({i for b in c2['blocks'] for row in b['conn'] for i in row})
+            if len(used) != len(ids):       # otherwise remove_useless_nodes leaves the table alone
+                p_of = dict(zip(ids, c2['points']))
+                c2['node_ids'] = used
+                c2['points'] = [p_of[i] for i in used]
         edited = ({'NODE'} if th.get('points_how') == 'inplace' else set()) | \
             {ow['name'] for ow in th.get('overwrites', []) if ow.get('how') == 'inplace'}
         for w, d in oracle(c2, r['second']):
@@ -374,18 +397,30 @@ def main(ctx):
     ctx.assumptions += ['node ids distinct; element blocks of the eight types with the right arity',
                         'meshes carrying elemental data are excluded: meshio 5 rejects femio\'s '
                         'meshio-3 style cell_data (environment incompatibility, not the property)']
-    tie_ok = True
+    tie_ok, unread = True, {}
     try:
-        t, consumed = c06_tables.translate(str(lib.REPO))
+        values, consumed, unread = c06_tables.read_regions(str(lib.REPO))
+        baseline = c06_tables.load_baseline()
+        t = c06_tables.combine(values, unread, baseline)
         ctx.sources = consumed
         ctx.notes['translated'] = {k: v for k, v in t.items() if k != 'table'}
         ctx.notes['point_data_export'] = 'by node id' if t['point_data_by_id'] else 'positional'
-        lib.write_if_changed(lib.COQ / PID / 'gen' / 'VtkTables.v', c06_tables.emit(t))
+        if not unread:
+            flat = c06_tables.combine(values, {}, {})
+            ctx.notes['translation_equals_baseline'] = all(
+                json.loads(json.dumps(flat[k])) == baseline[k] for k in baseline)
+        lib.write_if_changed(lib.COQ / PID / 'gen' / 'VtkTables.v', c06_tables.emit(t, unread))
     except (c06_tables.TranslateError, SyntaxError, KeyError, AttributeError, TypeError,
-            ValueError, IndexError) as e:
+            ValueError, IndexError, OSError) as e:
         tie_ok = False
         ctx.log('translator failed closed:', e)
         ctx.notes['translator_error'] = f'{type(e).__name__}: {e}'
+    # A region the translator cannot read is not a violation by itself: its values come from the
+    # committed baseline (T degrades to H) and the correspondence is widened.
+    degraded = tie_ok and bool(unread)
+    if degraded:
+        ctx.log('translator could not read:', unread, '-> baseline model + widened correspondence')
+        ctx.notes['translator_unread_regions'] = unread
     proof_ok, corr_built = False, False
     if tie_ok:
         proof_ok, log = ctx.build_props(f'{PID}/Props.v', extra_targets=[f'{PID}/Corr.vo'])
@@ -405,16 +440,19 @@ def main(ctx):
             c = json.loads(f.read_text())
             c['id'] = len(cases)
             cases.append(c)
-    n_main = 3000 if thorough else 150
+    n_main = 3000 if thorough else (500 if degraded else 150)
     for t in ARITY:                       # every element type alone (own branches of the export)
         cases.append(gen_mesh(ctx.rng, len(cases), only_type=t))
     for _ in range(n_main):
         cases.append(gen_mesh(ctx.rng, len(cases)))
-    for _ in range(60 if thorough else 10):
+    if degraded:                          # every element type alone, again (type table, arities)
+        for t_ in list(ARITY) + ['tet2'] * 8:
+            cases.append(gen_mesh(ctx.rng, len(cases), only_type=t_))
+    for _ in range(60 if thorough else (40 if degraded else 10)):
         cases.append(gen_mesh(ctx.rng, len(cases), misaligned=True))
-    for _ in range(40 if thorough else 6):
+    for _ in range(40 if thorough else (16 if degraded else 6)):
         cases.append(gen_mesh(ctx.rng, len(cases), malformed=True))
-    for _ in range(3):
+    for _ in range(12 if degraded else 3):
         cases.append({'id': len(cases), 'stream': 'tet2perm', 'id_mode': 'n/a', 'blocks': [],
                       'variables': [],
                       'rows': [ctx.rng.sample(range(1, 1000), 10) for _ in range(2)]})
@@ -493,6 +531,18 @@ def main(ctx):
                           signature={'what': 'correspondence', 'stream': c['stream'],
                                      'types': sorted(b['type'] for b in c['blocks'])},
                           what='VTK file not reproduced by the model')
+    if degraded:
+        n_dis = ctx.corr.get('disagreements') if corr_built and ctx.corr else None
+        why = '; '.join(f'{k}: {v}' for k, v in sorted(unread.items()))
+        ctx.notes['tie'] = (f'H (translator could not read {why}; baseline model + widened '
+                            f'correspondence, {len(cases)} cases, {n_dis} disagreements, '
+                            f'{sum(per_what.values())} oracle failures)')
+        ctx.trusted.append('degraded tie for this tree: ' + ctx.notes['tie'])
+        if not corr_built and n_bad == 0:
+            ctx.violation('tie-broken', {'unread_regions': unread},
+                          'the widened correspondence runs when the translator cannot read a region',
+                          'Corr.vo did not build', 'correspondence C06 (Corr.chk_vtk)',
+                          found_input=False, signature={'kind': 'tie-broken', 'why': 'corr-not-built'})
     if not tie_ok and n_bad == 0:
         ctx.violation('tie-broken', {'translator_error': ctx.notes.get('translator_error')},
                       'translator accepts the VTK export code', 'fail-closed',
@@ -521,8 +571,11 @@ def replay(path):
     bad = oracle(c, r)
     print('oracle:', bad)
     try:
-        t, _ = c06_tables.translate(str(lib.REPO))
-        lib.write_if_changed(lib.COQ / PID / 'gen' / 'VtkTables.v', c06_tables.emit(t))
+        values, _, unread = c06_tables.read_regions(str(lib.REPO))
+        t = c06_tables.combine(values, unread, c06_tables.load_baseline())
+        if unread:
+            print('translator could not read (baseline used):', unread)
+        lib.write_if_changed(lib.COQ / PID / 'gen' / 'VtkTables.v', c06_tables.emit(t, unread))
         ok, log, _ = lib.coq_make([f'{PID}/Corr.vo'])
         if ok:
             failing, cfail = run_corr(ctx, [c], {0: r})
